@@ -193,6 +193,30 @@ add("C16",
     "Closed form uses the object's own threshold_at_*/fnr/fpr; n of the rule of three may be scored "
     "or all samples (not stated by the property); fixed_width_band_ci only on spanning supports.")
 
+add("C17",
+    "property-based testing: Hypothesis-generated sample curves and targets with an exact "
+    "rational piecewise-linear interpolant as reference model; differential oracle for "
+    "threshold_at_metric against the inversion on harness-recomputed evaluation points",
+    "Exploration: every returned point is verified to solve f(z)=t on the exact interpolant, to lie "
+    "in the sampled range and to be in increasing order; transversal crossings must all be "
+    "reported; targets that are not attained must give exactly the closest sample point; "
+    "threshold_at_metric must equal the inversion applied to all scores / k evenly spaced points / "
+    "the supplied points.",
+    "Tolerance 1e-9*scale plus the rounding of z times the steepest slope; results are flattened "
+    "(the closest-point branch returns shape (1,1), which the property does not rule out).")
+
+add("C18",
+    "property-based testing: Hypothesis-generated DataFrames; counting reference model per group, "
+    "normalisation reference, identity-sampler collapse and a label-permuting custom sampler "
+    "whose replicates the harness recomputes under the same seed (differential for the intervals)",
+    "Exploration: row/column labels, entries for all 29 metric names, by_overall / by_min "
+    "normalisation incl. zero divisors, frame immutability; with bootstrap: same labels, "
+    "lower<=upper, collapse under the identity sampler, and equality with the documented CI "
+    "formula applied to the normalised replicates of the reported value under a label-permuting "
+    "sampler. One known finding (by_min + bootstrap) is excluded by a narrow predicate.",
+    "Normalised entries only where the divisor is defined; label-permuting clause uses distinct "
+    "scores and normalize None/by_overall; utils.bootstrap_ci is the CI formula (C13's subject).")
+
 NOT_YET = {}
 
 
